@@ -4,6 +4,7 @@ import (
 	"encoding/json"
 	"fmt"
 	"os"
+	"runtime"
 	"runtime/debug"
 	"strings"
 	"sync"
@@ -34,12 +35,48 @@ func guard(limit time.Duration, f func()) (status int, msg string) {
 		f()
 		ch <- res{0, ""}
 	}()
-	select {
-	case r := <-ch:
-		return r.status, r.msg
-	case <-time.After(limit):
-		return 2, "timeout"
+	deadline := time.After(limit)
+	extended := false
+	for {
+		select {
+		case r := <-ch:
+			return r.status, r.msg
+		case <-deadline:
+			// A wall-clock limit says nothing when the machine is oversubscribed (other checks, 8 shards of this one):
+			// if the run queue is longer than the number of CPUs, wait once more, in proportion.
+			if !extended {
+				if f := loadFactor(); f > 1 {
+					extended = true
+					if f > 6 {
+						f = 6
+					}
+					deadline = time.After(time.Duration(float64(limit) * f))
+					continue
+				}
+			}
+			if raceBuild {
+				// The abandoned goroutine keeps writing the variables the caller is about to read: under the race
+				// detector that is reported as a race of the harness with itself.  Stop here; the orchestrator
+				// attributes the time-out to the case in flight through the progress file (exit code 67).
+				fmt.Fprintln(os.Stderr, "TIMEOUT-IN-CASE")
+				os.Exit(67)
+			}
+			return 2, "timeout"
+		}
 	}
+}
+
+// loadFactor: 1-minute load average divided by the number of CPUs (0 when unknown).
+func loadFactor() float64 {
+	data, err := os.ReadFile("/proc/loadavg")
+	if err != nil {
+		return 0
+	}
+	var l1 float64
+	if _, err := fmt.Sscanf(string(data), "%f", &l1); err != nil {
+		return 0
+	}
+	return l1 / float64(runtime.NumCPU())
 }
 
 func firstFrames(stack string) string {
